@@ -208,7 +208,8 @@ def r12_2(ctx: Ctx):
     ok = False
     got = None
     if seeks and seeks[0].args:
-        got = poly_of(seeks[0].args[0], leaf)
+        from ..pat import expand_single_defs as _xsd12
+        got = poly_of(_xsd12(sk.node, seeks[0].args[0]), leaf)
         ok = got is not None and got == H + I * B
     ctx.ob("R12.2", sk, seeks[0] if seeks else "byte seek", ok,
            "byte position = header end + index * record size, from the same index as the counter",
